@@ -66,6 +66,7 @@ class SrcGen:
         # every third program contains at least one block region that the library refuses while it closes (a variable
         # defined in one branch only): the refusal is an exception leaving the region through its closing call
         self.want_misuse = rnd.random() < 0.4
+        self.catch_refusals = rnd.random() < 0.5
         self.force_misuse = False
 
     def fresh(self):
@@ -204,6 +205,10 @@ class SrcGen:
                 self.body(ind + 1, depth, conj(eff, rest), True)
             self.emit(ind, "try:")
             self.emit(ind + 1, "_endif(ctx=_)")
+            if self.catch_refusals:
+                # the program survives the library's refusal of this statement and carries on inside the enclosing regions
+                self.emit(ind, "except RuntimeError:")
+                self.emit(ind + 1, "pass")
             self.emit(ind, "finally:")
             self.emit(ind + 1, "__leave(%d, _)" % rid)
         elif mech == "while":
